@@ -1,6 +1,6 @@
 /-
 C16 — RollingWindow section driver.
-Ops:  add <now> <v> | reduce <now> | st        Obs: ok | `b:v,v,…` per visited bucket | `<offset> <lastTime>`
+Ops:  add <now> <v> | reduce <now> | st        Obs: ok | `b:v,v,…` per visited bucket, then `s:sum/count` per bucket of the real-Bucket window | `<offset> <lastTime>`
 -/
 import GoZero.Base.Trace
 import GoZero.C16.SpecRW
@@ -9,6 +9,10 @@ open GoZero
 
 def bucketsS (bs : List (List Nat)) : String :=
   joinSp (bs.map fun b => "b:" ++ ",".intercalate (b.map toString))
+
+/-- what the package's own `Bucket` (Sum, Count) holds for these buckets -/
+def sumsS (bs : List (List Nat)) : String :=
+  joinSp (bs.map fun b => s!"s:{b.foldl (· + ·) 0}/{b.length}")
 
 /-- the values of an observation `b:1,2 b: b:3`, flattened (none if unparsable) -/
 def parseFlat (obs : List String) : Option (List Nat) :=
@@ -65,17 +69,27 @@ def runRW (r : Report) (s : Section) : Report := Id.run do
         r := r.addCover (if sp = 0 then (if ign then "rw-reduce-current-ignored" else "rw-reduce-current")
                          else if sp = size then "rw-reduce-all-expired"
                          else if sp + 1 = size then "rw-reduce-span-size-1" else "rw-reduce-partly-expired")
-        let impl := joinSp l.obs
+        -- `b:…` tokens: the recording buckets; `s:sum/count` tokens: a second window over the real `Bucket` type
+        let bObs := l.obs.filter (·.startsWith "b:")
+        let sObs := l.obs.filter (·.startsWith "s:")
+        let impl := joinSp bObs
+        let implS := joinSp sObs
         let m := bucketsS (rw.reduceB t)
         if m ≠ impl then r := r.mismatch s.idx l.idx m impl
+        if sumsS (rw.reduceB t) ≠ implS ∨ bObs.length + sObs.length ≠ l.obs.length then
+          r := r.mismatch s.idx l.idx (sumsS (rw.reduceB t)) (joinSp l.obs)
         if back then continue
+        -- monitor 0: the real Bucket type holds the sums / counts of the log's intervals
+        let specS := sumsS (Spec.visible size ign t0 iv log.toList t)
+        if specS ≠ implS then
+          r := r.violation s.idx l.idx s!"struct=rw op=[{joinSp l.op}] Bucket sum/count spec=[{specS}] impl=[{implS}]"
         -- monitor 1 (bucket level): the visited buckets are the log's intervals
         let spec := bucketsS (Spec.visible size ign t0 iv log.toList t)
         if spec ≠ impl then
           r := r.violation s.idx l.idx s!"struct=rw op=[{joinSp l.op}] spec=[{spec}] impl=[{impl}]"
         -- monitor 2 (the property's words): exactly the values of the last `size` intervals
         let want := (Spec.lastIntervals size ign t0 iv log.toList t).flatten
-        match parseFlat l.obs with
+        match parseFlat bObs with
         | some got =>
           if got ≠ want then
             r := r.violation s.idx l.idx s!"struct=rw op=[{joinSp l.op}] values-of-last-intervals=[{joinSp (want.map toString)}] impl=[{impl}]"
